@@ -153,6 +153,13 @@ func genC13(t *core.Tape, tier string) *Scenario {
 				n++
 				q.bad = "expired-attempt" // judged only for what it does to the others
 				q.Deadline = time.Duration(1+t.Choose(12, "retry.deadline.us")) * time.Microsecond
+				if t.Bool(1, 3, "retry.after.client.timeout") {
+					// ... or that the HTTPClient itself gave up on (its own timeout),
+					// under a context that never ends
+					q.Deadline = 0
+					q.K.DoGivesUp = true
+					sc.Notes["retried_after_client_timeout"]++
+				}
 				q.ReqHeader = nil
 				q.ReqMsgs = [][]byte{tagged(t, q.ID, "req", 0)}
 				q.LiveCtx = false
